@@ -21,7 +21,7 @@ NET_FOR_PREFIX = {v: k for k, v in PREFIX.items() if k != "signet"}
 
 
 def uses_only_bech32_chars(string):
-    return bool(BECH32_CHARS_RE.match(string.lower()))
+    return bool(BECH32_CHARS_RE.fullmatch(string.lower()))
 
 
 # next four functions are straight from BIP0173:
